@@ -560,6 +560,14 @@ def selftest():
     # Golomb-Rice: BIP158-style examples (q ones, zero, p bits), round trip through the reader
     assert golomb_bytes(0, 2) == b"\x00" and golomb_bytes(9, 2) == b"\xc8" and golomb_bytes(257, 8) == b"\x80\x40"
     assert golomb_bits(5, 2) == [1, 0, 0, 1]
+    gv = [(0, 2, "00"), (1, 2, "20"), (2, 2, "40"), (3, 2, "60"), (4, 2, "80"), (5, 2, "90"), (6, 2, "a0"), (7, 2, "b0"), (8, 2, "c0"), (9, 2, "c8")]
+    gv += [(0, 8, "0000"), (1, 8, "0080"), (2, 8, "0100"), (128, 8, "4000"), (256, 8, "8000"), (257, 8, "8040")]
+    for x, p, want in gv:
+        assert golomb_bytes(x, p).hex() == want and BitReader(bytes.fromhex(want)).golomb(p) == x, (x, p)
+        w = BitWriter()
+        w.write(1 + (x >> p), (1 << (1 + (x >> p))) - 2)
+        w.write(p, x)
+        assert w.bytes().hex() == want
     for x in list(range(0, 3000, 7)) + [2**19 - 1, 2**19, 2**19 + 1, 2**26 - 1, 2**26]:
         b = golomb_bytes(x)
         assert BitReader(b).golomb() == x
